@@ -3,6 +3,7 @@ import PrysmVerif.Lemmas.C07Field
 import PrysmVerif.Lemmas.C07Spec
 import PrysmVerif.Lemmas.C07Jacobi
 import PrysmVerif.Lemmas.C07Hermite
+import PrysmVerif.Lemmas.C07Explicit
 import Mathlib.MeasureTheory.Integral.IntervalIntegral.Basic
 import Mathlib.Analysis.SpecialFunctions.Pow.Real
 import Mathlib.Analysis.SpecialFunctions.Sqrt
@@ -16,7 +17,8 @@ Layout.
    computes the hand model, for every order and every argument.
 2. *The property*: the functions so obtained are the textbook polynomials — DLMF coefficients for all `n`,
    value at 1, reflection, Chebyshev `T U V W` (Mathlib's `T`, `U`), Bonnet, Mathlib's `hermite` and `dickson`,
-   DLMF's Laguerre recurrence, the Zernike / XY / Hopkins / Qcon definitions — for ALL orders and points.
+   DLMF's Laguerre recurrence, the Zernike / XY / Hopkins / Qcon definitions, and DLMF 18.5.7's explicit
+   hypergeometric sum for Jacobi — for ALL orders and points.
 3. *Not proved*: orthogonality for all orders.  The full statements are kept as `…_full : Prop`;
    the harness checks them numerically (Gauss quadrature), labelled as testing.
 
@@ -363,6 +365,19 @@ theorem jacobi_is_dlmf (n : ℕ) (a b x : K) :
     push_cast
     simp [pow_two]
 
+/-- **DLMF 18.5.7** (stretch goal of the design, proved): the source's `jacobi` equals the explicit hypergeometric sum
+    `Σ_{l≤n} (n+α+β+1)_l (α+l+1)_{n−l} / (l! (n−l)!) · ((x−1)/2)^l` for EVERY order `n`, all `α, β > −1`, every `x` -/
+theorem jacobi_explicit (n : ℕ) (a b : K) (ha : -1 < a) (hb : -1 < b) (x : K) :
+    Generated.C07.jacobi (n:ℤ) a b x
+      = ∑ l ∈ Finset.range (n+1),
+          (rising ((n:K) + a + b + 1) l * rising (a + l + 1) (n - l) / ((l.factorial : K) * ((n - l).factorial : K)))
+            * ((x - 1) / 2) ^ l := by
+  rw [gen_jacobi, C07L.jacobi_explicit a b ha hb x n]
+  unfold jacobiExplicit pows
+  apply Finset.sum_congr rfl
+  intro l hl
+  rw [hyp_closed a b ha hb n l (by have := Finset.mem_range.mp hl; omega)]
+
 /-- `P_n^{(α,β)}(1) = ∏_{k<n} (k+α+1)/(k+1) = C(n+α, n)` for every `n` and all `α, β > −1` -/
 theorem jacobi_at_one (a b : K) (ha : -1 < a) (hb : -1 < b) (n : ℕ) :
     Generated.C07.jacobi (n:ℤ) a b 1 = ∏ k ∈ Finset.range n, ((k:K) + a + 1) / ((k:K) + 1) := by
@@ -454,6 +469,18 @@ theorem laguerre_dlmf (n : ℕ) (al x : K) :
   · simpa [laguerre_zero] using gen_laguerre 0 al x
   · simpa [laguerre_one] using gen_laguerre 1 al x
   · rw [gen_laguerre, gen_laguerre, gen_laguerre]; exact C07L.laguerre_dlmf n al x
+
+/-- **DLMF 18.5.12** (proved): the source's `laguerre` equals `Σ_{k≤n} (−1)^k (α+k+1)_{n−k} / ((n−k)! k!) · x^k`
+    for EVERY order `n`, every `α > −1`, every `x` -/
+theorem laguerre_explicit (n : ℕ) (al : K) (ha : -1 < al) (x : K) :
+    Generated.C07.laguerre (n:ℤ) al x
+      = ∑ k ∈ Finset.range (n+1),
+          ((-1) ^ k * rising (al + k + 1) (n - k) / (((n - k).factorial : K) * (k.factorial : K))) * x ^ k := by
+  rw [gen_laguerre, C07L.laguerre_explicit al ha x n]
+  unfold laguerreExplicit pows
+  apply Finset.sum_congr rfl
+  intro k hk
+  rw [lagTerm_closed al ha n k (by have := Finset.mem_range.mp hk; omega)]
 
 /-- Zernike: the value is `σ · R_n^{|m|}(r) · az` with the textbook radial polynomial
     `R_n^m(r) = r^m P^{(0,m)}_{(n−m)/2}(2r²−1)` built from the source's `jacobi`; `az = 1` for `m = 0` -/
